@@ -397,6 +397,9 @@ func (w *saoWorld) update(mut string) {
 		}
 	}
 	p := w.proposal(signerOwner, gw, dataId, commitId, op, uint64(500000+rng.Intn(3)*500000), int32(1+rng.Intn(2)), []uint64{3600, 7200}[rng.Intn(2)], 50)
+	if rng.Intn(2) == 0 {
+		p.Cid = goodCid2 // new content
+	}
 	jws := SignJWS(&p, signerOwner.key, signerOwner.kid)
 	res := w.r.Store(gw, &saotypes.MsgStore{Creator: gw.Bech(), Proposal: p, JwsSignature: jws, Provider: gw.Bech()})
 	if byGrantee && res.Class == "ok" {
@@ -542,6 +545,14 @@ func (w *saoWorld) permission(mut string) {
 		}
 	}
 	jws := SignJWS(&p, o.key, o.kid)
+	if g, ok := w.grants[dataId]; ok && mut == "grantee" {
+		// a read-write grantee signs the permission update itself, naming the owner or itself as owner
+		if rng.Intn(2) == 0 {
+			p.Owner = g.did
+		}
+		p.ReadwriteDids = []string{g.did, w.attOwner.did}
+		jws = SignJWS(&p, g.key, g.kid)
+	}
 	if mut == "forged-owner" {
 		// the proposal names the real owner; header and signature are the sponsor's (an unrelated did:key), who grants himself access
 		p.ReadwriteDids = []string{w.sponsor.did}
@@ -782,7 +793,7 @@ func runSaoHistory(r *Recorder, rng *rand.Rand, accts []*Account, nOps int, long
 			case x < 68:
 				w.terminate(weighted(rng, []string{"stranger", "tampered", "grantee", "readonly", "unknown-relay", "forged-owner"}, 30))
 			case x < 75:
-				w.permission(weighted(rng, []string{"stranger", "bad-did", "forged-owner", "forged-owner"}, 35))
+				w.permission(weighted(rng, []string{"stranger", "bad-did", "forged-owner", "forged-owner", "grantee", "grantee"}, 35))
 			case x < 80:
 				w.cancel(weighted(rng, []string{"attacker-own-node", "attacker-names-gateway", "other-gateway"}, 30))
 			case x < 85:
